@@ -3,7 +3,9 @@ package rules
 import (
 	"regexp"
 	"sort"
+	"strconv"
 	"strings"
+	"unicode/utf8"
 )
 
 // canonShape brings a printed normal form into a canonical shape under three laws that no property depends on,
@@ -16,6 +18,9 @@ import (
 //   - (A eq B) is (B eq A) (operands in lexicographic order), likewise ne;
 //   - the fields of a record literal T{A: x, B: y} are listed in alphabetical order;
 //   - slice.Collect(f, xs) is slice.Concat(slice.Map(f, xs));
+//   - adjacent literal pieces of an emission template are one literal, and a literal suffix common to all arms of a
+//     template match is emitted after the match;
+//   - a string match with single distinct literal patterns and a default is the if/elif chain of equality tests;
 //   - slice.Length is slice.Len; slice.IsNotEmpty(X) is not(slice.IsEmpty(X)); (slice.Len(X) eq 0) is
 //     slice.IsEmpty(X), (slice.Len(X) ne 0) and (slice.Len(X) > 0) are its negation (closed forms decided by C13).
 //
@@ -51,6 +56,15 @@ func canonShapeOnce(s string) string {
 		// quoted literal
 		if c == '"' || c == '\'' || c == '`' {
 			j := skipQuoted(s, i)
+			// adjacent literal pieces of an emission template are one literal: "}" ")" is "})"
+			for c == '"' && j+2 < len(s) && s[j] == ' ' && s[j+1] == '"' && j-1 > i {
+				k := skipQuoted(s, j+1)
+				if k <= j+1 || k > len(s) {
+					break
+				}
+				s = s[:j-1] + s[j+2:]
+				j = k - 3
+			}
 			b.WriteString(s[i:j])
 			i = j
 			continue
@@ -79,7 +93,11 @@ func canonShapeOnce(s string) string {
 							return lx < ly
 						})
 					}
-					b.WriteString("match(" + scr + "){" + strings.Join(arms, "; ") + "}")
+					suffix := ""
+					if okArms {
+						arms, suffix = hoistCommonSuffix(arms)
+					}
+					b.WriteString("match(" + scr + "){" + strings.Join(arms, "; ") + "}" + suffix)
 					i = c1 + 1
 					continue
 				}
@@ -143,6 +161,86 @@ func canonShapeOnce(s string) string {
 	next:
 	}
 	return b.String()
+}
+
+// hoistCommonSuffix: when every arm "L: pieces" of a template match ends with a literal piece, the longest common
+// suffix of those literals is emitted after the match instead (the same characters in the same order: a literal has
+// no effect and nothing is evaluated after it inside the arm).
+func hoistCommonSuffix(arms []string) ([]string, string) {
+	type cut struct {
+		head string // the arm up to its last piece
+		lit  string // unquoted last literal
+	}
+	cuts := make([]cut, len(arms))
+	common := ""
+	for k, a := range arms {
+		a = strings.TrimSpace(a)
+		if !strings.HasSuffix(a, `"`) {
+			return arms, ""
+		}
+		// find the start of the last literal: scan the pieces from the left
+		last := -1
+		start := strings.Index(a, ":") + 1
+		if a[0] == '"' {
+			start = skipQuoted(a, 0)
+		}
+		for i := start; i < len(a); {
+			switch a[i] {
+			case '"', '\'', '`':
+				j := skipQuoted(a, i)
+				if j >= len(a) {
+					last = i
+				}
+				i = j
+			case '(', '{', '[':
+				j := matchingClose(a, i)
+				if j < 0 {
+					return arms, ""
+				}
+				i = j + 1
+			default:
+				i++
+			}
+		}
+		if last < 0 || a[last] != '"' || (last > 0 && a[last-1] != ' ') {
+			return arms, ""
+		}
+		u, err := strconv.Unquote(a[last:])
+		if err != nil || strconv.Quote(u) != a[last:] {
+			return arms, ""
+		}
+		cuts[k] = cut{a[:last], u}
+		if k == 0 {
+			common = u
+		} else {
+			n := 0
+			for n < len(common) && n < len(u) && common[len(common)-1-n] == u[len(u)-1-n] {
+				n++
+			}
+			common = common[len(common)-n:]
+		}
+	}
+	// never cut inside a multi-byte character
+	for len(common) > 0 && !utf8.RuneStart(common[0]) {
+		common = common[1:]
+	}
+	if common == "" {
+		return arms, ""
+	}
+	res := make([]string, len(arms))
+	for k, c := range cuts {
+		rest := c.lit[:len(c.lit)-len(common)]
+		head := strings.TrimSpace(c.head)
+		switch {
+		case rest != "":
+			res[k] = head + " " + strconv.Quote(rest)
+		case strings.HasSuffix(head, ":"):
+			res[k] = head + ` ""`
+		default:
+			res[k] = head
+		}
+	}
+	return res, " " + strconv.Quote(common)
 }
 
 func isWordChar(p byte) bool {
